@@ -73,7 +73,8 @@ def Sched.run (s : Sched) (wf : Nat → Rat) : List (Option Nat) → List Nat ×
     | some (i, s') => let (r, s'') := Sched.run s' wf hs; (i :: r, s'')
 
 /-- weight of host `i` in the weighted round-robin balancer: `fixHostWeight(float64(host.Weight()))`. -/
-def wrrWeight (ws : List Nat) (i : Nat) : Rat := ((Edf.fixHostWeight ((ws.getD i 0 : Nat) : Int) : Int) : Rat)
+def wrrW (ws : List Nat) (i : Nat) : Int := Edf.fixHostWeight ((ws.getD i 0 : Nat) : Int)
+def wrrWeight (ws : List Nat) (i : Nat) : Rat := ((wrrW ws i : Int) : Rat)
 
 /-- scheduler after the `Add` phase of `EdfLoadBalancer.refresh`: one entry per host in host-set order. -/
 def initWith (wf : Nat → Rat) (n : Nat) : Sched :=
